@@ -294,7 +294,15 @@ func ambiguousForEqual(a, b *wire.Value) bool {
 		}
 		if len(a.Items) == len(b.Items) {
 			for i := range a.Items {
-				if ambiguousForEqual(a.Items[i], b.Items[i]) {
+				x, y := a.Items[i], b.Items[i]
+				// a pointer list against a struct list: the pointer is compared with the
+				// element's first pointer field
+				if x.Kind == wire.KStruct && y.Kind != wire.KStruct && len(x.Ptrs) > 0 {
+					x = x.Ptrs[0]
+				} else if y.Kind == wire.KStruct && x.Kind != wire.KStruct && len(y.Ptrs) > 0 {
+					y = y.Ptrs[0]
+				}
+				if ambiguousForEqual(x, y) {
 					return true
 				}
 			}
